@@ -159,7 +159,7 @@ type DecodeInfo struct {
 	MaxDepth     int
 }
 
-const maxDecodeDepth = 10000
+const maxDecodeDepth = 100000 // far above the deepest generated value (20000); only bounds hostile input
 
 // DecodeValue reads one tagged value. r.Err is set on short or malformed input.
 func DecodeValue(r *R, info *DecodeInfo) *V {
